@@ -69,6 +69,16 @@ def _sx_fstr(parts):
     return core.fstr(parts)
 
 
+def _sx_module_shim(name, mod):
+    import re as _real_re
+    if name == "struct" and mod is _struct:
+        return STRUCT_SHIM
+    if name == "re" and mod is _real_re:
+        from .rx import ReShim
+        return ReShim()
+    return mod
+
+
 def _sx_getitem(obj, idx):
     """obj[idx]: a symbolic index into a list/tuple forks into 'in range' (then one
     path per feasible element) and a single 'out of range' path raising IndexError."""
@@ -107,6 +117,18 @@ class _T(ast.NodeTransformer):
                            args=[f.value, ast.Constant(f.attr)] + node.args, keywords=node.keywords)
             return ast.copy_location(new, node)
         return node
+
+    def visit_Import(self, node):
+        # `import re` / `import struct` are rebound to the shims straight away, so that module-level uses
+        # (a pattern compiled once at import time) go through them as well
+        out = [node]
+        for a in node.names:
+            if a.name in ("re", "struct") and a.asname in (None, a.name):
+                out.append(ast.copy_location(ast.Assign(
+                    targets=[ast.Name(id=a.name, ctx=ast.Store())],
+                    value=ast.Call(func=ast.Name(id="_sx_module_shim", ctx=ast.Load()),
+                                   args=[ast.Constant(a.name), ast.Name(id=a.name, ctx=ast.Load())], keywords=[])), node))
+        return out
 
     def visit_Subscript(self, node):
         self.generic_visit(node)
@@ -414,6 +436,7 @@ SHIMS = {
     "_sx_cm": _sx_cm,
     "_sx_fstr": _sx_fstr,
     "_sx_getitem": _sx_getitem,
+    "_sx_module_shim": _sx_module_shim,
 }
 SHIM_NAMES = ["struct.pack", "struct.unpack", "len", "int", "float", "isinstance", "range", "hex",
               "<const>.join", "<const>.format", "f-strings", "list[symbolic index]", "logging calls (empty bodies)", "re.search (class LIT(.*)LIT..., sx/rx.py)"]
